@@ -3,6 +3,7 @@ package main
 import (
 	"context"
 	"fmt"
+	"reflect"
 	"sync"
 	"time"
 )
@@ -13,14 +14,15 @@ type streamSpec struct {
 	N        int    `json:"n"`
 	Consumer string `json:"consumer"` // fast | slow | never | cancel@j (cancel the subscription after j values)
 	CancelAt int    `json:"cancel_at"`
+	Struct   bool   `json:"struct,omitempty"` // elements are structs with optional slice / map / pointer fields
 }
 
 type streamObs struct {
-	Token    int   `json:"token"`
-	N        int   `json:"n"`
-	Got      []int `json:"got"`
-	Closed   bool  `json:"closed"`
-	SubErr   string `json:"sub_err,omitempty"`
+	Token  int    `json:"token"`
+	N      int    `json:"n"`
+	Got    []int  `json:"got"`
+	Closed bool   `json:"closed"`
+	SubErr string `json:"sub_err,omitempty"`
 }
 
 // cause: "normal" | "fin@j" | "rst@j" | "stop@j"  (the fault strikes once stream 0's consumer has j values)
@@ -65,7 +67,29 @@ func scenStream(specs []streamSpec, unary int, cause string, at int, subBuf int,
 		ctx, cancel := context.WithCancel(context.Background())
 		cancels[i] = cancel
 		e.tr.ev("call.issue", tok, "sub")
-		ch, err := e.cl.Sub(ctx, tok, sp.N)
+		var ch <-chan int
+		var err error
+		if sp.Struct {
+			var chS <-chan cpElem
+			chS, err = e.cl.SubS(ctx, tok, sp.N)
+			if err == nil {
+				// unbuffered adapter: same back-pressure; an element that is not what the handler sent is passed on negated
+				ci := make(chan int)
+				ch = ci
+				go func() {
+					defer close(ci)
+					for el := range chS {
+						if reflect.DeepEqual(el, mkElem(el.Seq)) {
+							ci <- el.Seq
+						} else {
+							ci <- -el.Seq - 1
+						}
+					}
+				}()
+			}
+		} else {
+			ch, err = e.cl.Sub(ctx, tok, sp.N)
+		}
 		if err != nil {
 			o.SubErr = err.Error()
 			e.tr.ev("call.return", tok, "other:"+err.Error())
@@ -192,6 +216,9 @@ func streamOracle(specs []streamSpec, obs []*streamObs, cause string, unaryDone,
 			continue
 		}
 		for j, v := range o.Got {
+			if v < 0 {
+				return fmt.Sprintf("stream %d: element %d arrived with a content the handler never sent (fields of other elements merged in)", o.Token, j)
+			}
 			if v != o.Token*1000+j {
 				return fmt.Sprintf("stream %d: element %d is %d, the handler sent %d (foreign, reordered or duplicated value)", o.Token, j, v, o.Token*1000+j)
 			}
@@ -229,6 +256,9 @@ func init() {
 			emit(scenStream([]streamSpec{{N: 2, Consumer: "fast"}, {N: 40, Consumer: "fast"}, {N: 40, Consumer: "slow"}, {N: 40, Consumer: "fast"}}, 1, "normal", 0, 2, false))
 			emit(scenStream([]streamSpec{{N: 0, Consumer: "fast"}, {N: 25, Consumer: "slow"}, {N: 25, Consumer: "never"}}, 0, "normal", 0, 0, false))
 			emit(scenStream([]streamSpec{{N: 20, Consumer: "slow"}, {N: 1, Consumer: "fast"}, {N: 25, Consumer: "slow"}, {N: 2, Consumer: "fast"}}, 1, "normal", 0, 0, false))
+			// non-scalar elements (optional slice / map / pointer fields that differ from one element to the next)
+			emit(scenStream([]streamSpec{{N: 12, Consumer: "fast", Struct: true}}, 0, "normal", 0, 0, false))
+			emit(scenStream([]streamSpec{{N: 30, Consumer: "slow", Struct: true}, {N: 30, Consumer: "fast"}, {N: 9, Consumer: "fast", Struct: true}}, 1, "normal", 0, 4, false))
 			k := 6
 			if tier == "thorough" {
 				k = 80
@@ -241,6 +271,13 @@ func init() {
 				}
 				emit(scenStream(sp, r.intn(3), "normal", 0, r.intn(3)*4, false))
 			}
+		}
+		if which == "close" {
+			// closing the client while streamed values are still buffered for a slow consumer: every channel obtained
+			// from the client must still deliver what it holds and then be closed (C18)
+			emit(scenStream([]streamSpec{{N: 40, Consumer: "slow"}, {N: 40, Consumer: "fast"}}, 1, "stop", 2, 0, false))
+			emit(scenStream([]streamSpec{{N: 60, Consumer: "never"}, {N: 20, Consumer: "slow", Struct: true}}, 0, "stop", 1, 4, false))
+			emit(scenStream([]streamSpec{{N: 25, Consumer: "slow"}}, 0, "stop", 20, 0, true))
 		}
 		if which == "all" || which == "term" {
 			for _, cause := range []string{"fin", "rst", "stop"} {
